@@ -53,9 +53,9 @@ func TestTypeDirected(t *testing.T) {
 				c.Fields = append(c.Fields, genField(t, s.Provs))
 			}
 			// a configuration point next to the component points (other property group of the same holder)
-			if rapid.Bool().Draw(t, "cfgfield") {
+			for nd := rapid.SampledFrom([]int{0, 1, 1, 2}).Draw(t, "ndecoys"); nd > 0; nd-- {
 				pos := rapid.IntRange(0, len(c.Fields)).Draw(t, "cfgpos")
-				f := pop.FieldSpec{Type: "string", Tag: `value:"lit"`}
+				f := pop.DrawDecoyField(t)
 				c.Fields = append(c.Fields[:pos], append([]pop.FieldSpec{f}, c.Fields[pos:]...)...)
 			}
 			s.Cons = append(s.Cons, c)
@@ -115,6 +115,11 @@ func TestTypeDirected(t *testing.T) {
 			// sound + complete; ranking among several candidates is C08's subject
 			if err := graph.CheckWiringOpt(g, graph.WiringOpts{Complete: true}); err != nil {
 				t.Fatalf("C06: %v\nscenario: %s\nreg %v ordmode %d", err, desc, s.RegPerm, s.OrdMode)
+			}
+			for k, c := range s.Cons {
+				if err := pop.CheckDecoys(in.Comps[s.ConsumerIndex(k)], c); err != nil {
+					t.Fatalf("C06: %v\nscenario: %s", err, desc)
+				}
 			}
 			for k := range s.Cons {
 				c := in.Comp(s.ConsumerIndex(k))
